@@ -41,6 +41,7 @@ deriving Repr, DecidableEq
 inductive Outcome
   | sent (s : Sent)
   | errInvalidMethod                    -- `Error::InvalidMethod(CONNECT)`
+  | errProtocol                         -- `Error::Protocol`: CONNECT without an authority on HTTP/1
   | panic (site : String)               -- an `unreachable!` / `debug_assert!` fired
 deriving Repr, DecidableEq
 
@@ -92,24 +93,24 @@ def authorityForm (u : Uri) : Uri :=
 def untouched (u : Uri) : Uri :=
   { u with path := if u.path == "" && u.scheme.isSome then "/" else u.path }
 
-/-- `check_http1_request` on an HTTP/1 connection; `dbg` = the crate is built with debug assertions. -/
-def http1Target (dbg : Bool) (r : Req) : Except String Uri :=
+/-- `check_http1_request` on an HTTP/1 connection; `none` = rejected (CONNECT without an authority).
+    A URI without scheme or authority is already origin-form (or `*`) and is sent as it is. -/
+def http1Target (r : Req) : Option Uri :=
   if r.connect then
     match r.uri.host with
-    | some _ => .ok (authorityForm r.uri)      -- `authority_form`; the later https test sees no scheme
-    | none => .error "authority_form with relative uri"
-  else if r.uri.scheme.isNone || r.uri.host.isNone then
-    if dbg then .error "absolute_form needs a scheme/authority" else .ok (untouched r.uri)
-  else .ok (originForm r.uri)
+    | some _ => some (authorityForm r.uri)     -- `authority_form`; the later https test sees no scheme
+    | none => none
+  else if r.uri.scheme.isNone || r.uri.host.isNone then some (untouched r.uri)
+  else some (originForm r.uri)
 
 /-- The whole stack for a request executed on connection `c`. -/
-def send (dbg : Bool) (c : Conn) (r : Req) : Outcome :=
+def send (c : Conn) (r : Req) : Outcome :=
   match c with
   | .h1 =>
     let r := setHostHeader r                       -- `conn.version() < HTTP_2`
-    match http1Target dbg r with                   -- Http2Checks is the identity on an h1 connection
-    | .error site => .panic site
-    | .ok t => .sent { method := r.method, target := t, version := .h1, headers := r.headers }
+    match http1Target r with                       -- Http2Checks is the identity on an h1 connection
+    | none => .errProtocol
+    | some t => .sent { method := r.method, target := t, version := .h1, headers := r.headers }
   | .h2 =>
     if r.connect then .errInvalidMethod
     else
